@@ -333,4 +333,59 @@ def cross_mult(ctx, fb):
         elif not ok_order and short == "partial_cmp":
             ctx.report("C10-cross-mult", short + "/order", "the ordering compares rhs.num*lhs.den against lhs.num*rhs.den (reversed "
                        "order)", where_of(f))
+    # --- sibling cross-check (Engler-style contradiction rule): eq, partial_cmp and exact_eqv implement the same
+    # comparison of two ratios; the comparisons that decide the result must be made on the same comparands in all of
+    # them.  A shortcut taken by one sibling only (e.g. comparing raw denominators when the numerators are equal) is
+    # reported: either the shortcut is wrong or the other siblings lack it.
+    shapes = {}
+    for path, mode in spec.items():
+        f = fb.find(path)
+        short = path.rsplit("::", 1)[-1]
+        p = Prov(f)
+        ridx = fb.variant_index("values::NumberBinaryOperand", "Rational") if mode == "operand" else None
+        region = None
+        if mode == "operand":
+            sw = next(iter(mir.discriminant_switches(f, "NumberBinaryOperand")), None)
+            region = mir.dominated_region(f, sw[3].get(ridx, sw[4])) if sw else set()
+        else:
+            # arm where both are Rational: blocks that read a Rational downcast
+            region = {b for b, i, st in f.stmts() if any(any(e.get("variant") == "Rational" for e in pl["proj"]) for pl in mir.rv_places(st["rv"]))}
+            region = set().union(*[f.reachable(b) for b in region]) if region else set()
+        cmps = set()
+        for b, t in f.calls(region):
+            m = (callee(t) or "").rsplit("::", 1)[-1]
+            if m not in ("partial_cmp", "eq", "cmp", "ne", "lt", "gt", "le", "ge"):
+                continue
+            if not any(x in " ".join(t.get("argtys", [])) for x in ("i32", "i64")):
+                continue
+            sides = []
+            for a in t["args"][:2]:
+                l = mir.op_local(a)
+                reach = p.reach_locals(l) if l is not None else set()
+                # which ratio components flow into this comparand?
+                comps = set()
+                for bb, ii, st in f.stmts():
+                    if st["k"] == "assign" and st["place"]["local"] in reach:
+                        for pl in mir.rv_places(st["rv"]):
+                            if any(e.get("variant") == "Rational" for e in pl["proj"]):
+                                idx = [e["i"] for e in pl["proj"] if e["k"] == "field"]
+                                root, pth = mir.trace_access(f, {"k": "copy", "place": pl})
+                                if mode == "operand":
+                                    comps.add({0: "lhs.num", 1: "lhs.den", 2: "rhs.num", 3: "rhs.den"}.get(idx[-1] if idx else -1, "?"))
+                                else:
+                                    side = "lhs" if root == 1 else "rhs"
+                                    comps.add("%s.%s" % (side, "num" if (idx[-1] if idx else 0) == 0 else "den"))
+                sides.append(frozenset(comps))
+            cmps.add(frozenset(sides))
+        shapes[short] = cmps
+    ref = shapes.get("eq", set())
+    ctx.inst("C10-cross-mult", "siblings", {k: sorted(sorted(sorted(x) for x in c) for c in v) for k, v in shapes.items()})
+    for short in ("partial_cmp", "exact_eqv"):
+        extra_c = shapes.get(short, set()) - ref
+        for c in sorted(extra_c, key=lambda c: sorted(map(sorted, c))):
+            desc = " against ".join("*".join(sorted(x)) for x in c)
+            ctx.report("C10-cross-mult", "%s/sibling-shortcut/%s" % (short, desc.replace(" ", "_")),
+                       "%s decides some ratio comparisons by comparing %s, which `=` (eq) never does: the siblings disagree on how two "
+                       "ratios are compared (a shortcut that is only valid for some signs?)" % (short, desc), where_of(fb.find(
+                           "<values::Number as std::cmp::PartialOrd>::partial_cmp" if short == "partial_cmp" else "values::Number::exact_eqv")))
     ctx.floor("C10-cross-mult", 3)
